@@ -23,6 +23,7 @@ RULE = (
     "open: the reads touching bytes >= 720 of an image number at most ceil(N / rpc), have "
     "strictly increasing non-overlapping offsets and stay inside the file. Non-trivial: the "
     "selected span covers >= 1 group and fewer than all groups."
+    " Domain guard: a selection is judged only if xarray produces on a trivially correct lazily indexed control backend what it produces in memory. The file objects advertise a block size of 64 bytes."
 )
 ASSUMPTIONS = [
     "the vtrace filesystem sees every byte the library requests (no hidden buffering: it hands out raw file objects)",
